@@ -1,7 +1,7 @@
 //! Suite `rt`: des::runtime::Runtime (generic application, scripted events) against Runtime.tla.
 //! Serves C02 (clock), C03 (ties at runtime level), C10 (stepping), C11 (limits).
 use crate::common::*;
-use crate::fes::Emb;
+use crate::emb::Emb;
 use des::prelude::*;
 use des::runtime::{Profiler, RuntimeLimit};
 use serde_json::{json, Value};
@@ -182,7 +182,14 @@ fn build_limit(v: &Value, emb: &Emb) -> RuntimeLimit {
 }
 
 fn builder_for(cfgv: &Value, n: usize, w: Duration, emb: &Emb, variant: usize) -> Builder {
+    // the BinaryHeap backend (harness_heap, des without the `cqueue` feature) has no queue parameters
+    #[cfg(not(vh_heap))]
     let mut b = Builder::seeded(1).quiet().cqueue_options(n, w);
+    #[cfg(vh_heap)]
+    let mut b = {
+        let _ = (n, w);
+        Builder::seeded(1).quiet()
+    };
     let start = cfgv["start"].as_u64().unwrap();
     if start > 0 || variant % 2 == 0 {
         b = b.start_time(st(emb.map(start)));
@@ -525,7 +532,7 @@ pub fn record(args: &[String]) {
         let emb = Emb::new(kind, n, w, 3000, seed ^ r);
         let start = *rng.pick(&[0u64, 0, 3]);
         let limit = if rng.chance(1, 2) { json!({"k": "none"}) } else { rnd_limit(&mut rng, 2) };
-        let cfgv = json!({"op": "cfg", "start": start, "limit": limit, "seed": true});
+        let cfgv = json!({"op": "cfg", "start": start, "limit": limit, "seed": true, "backend": if cfg!(vh_heap) { "heap" } else { "cqueue" }});
         let mut lines: Vec<Value> = vec![cfgv.clone()];
         SCRIPT.with(|sc| {
             *sc.borrow_mut() = Script { emb: Some(emb.clone()), use_abs: rng.chance(1, 2), rec: Some(Rng(seed ^ (r << 8) ^ 0x77)), rec_budget: 60 + rng.below(120) as u32, nid: 1, ..Default::default() }
